@@ -395,10 +395,10 @@ def judge(ctx, case, events, frames, escaped, cfg) -> dict:
                 if m["code"] == 0x0952 and not e_["auth"]:
                     if n > 1:
                         ctx.fail("C29:passed-on:twice", inp, f"plain SessionResponse handed to the callback {n} times")
-                    if n and not e_["init"] and m.get("handshake") is None:
-                        # the client took a SessionResponse that is not the simulator's: its session key is unknown to the oracle
-                        e_["foreign"] = True
-                        info["foreign"] = True
+                    if n and not e_["init"]:
+                        # the client uses the last SessionResponse it got before it resumed; if that is not the
+                        # simulator's own, the session key is unknown to the oracle ("foreign" epoch)
+                        e_["foreign"] = m.get("handshake") is None
                     continue
                 if n:
                     why = "session-response-after-authentication" if m["code"] == 0x0952 else f"{m['code']:04x}"
